@@ -24,16 +24,25 @@ R3 pruning guards.  A predecessor is queued for removal only when its successor 
    `remove_nodes` with pruning on and returns its result -- the flag is the value the *callee* sees: the argument
    written at the call site or, when omitted, the callee's signature default (a caller relying on a default);
    wrappers (`remove_node`) forward `prune_dead_end`;
-   `replace` does nothing for an absent `old_node` and refuses an existing `new_node` before any mutation.
+   `replace` does nothing for an absent `old_node` and refuses an existing `new_node` before any mutation;
+   `replace` (every override) only renames: any removal it performs -- itself or through methods of the graph classes it
+   is built on (`self.helper(..)` calls followed two levels, constant arguments propagated into forwarded flags) -- runs
+   with `prune_dead_end` constant False as the remover sees it (argument or signature default).  Dead-end pruning
+   deletes the predecessors whose only successor was old_node, and their ancestors: edges replace must keep.
+   Returned temporaries are resolved at the return statement that reads them (reaching definitions), so
+   `tmp = []; return tmp` on the early exit and `tmp = self.remove_nodes(q); return tmp` at the end are told apart.
 R4 GraphMapper keeps `port_tokens`, `token_instances`, `token_availability` in step: a token id added
    to / removed from one of them is added to / removed from all three together; `replace_token` replaces
    exactly (old id -> new id) in the DAG; `move_token_to_root` cleans the ids returned by
    `promote_to_source` and removes emptied ports; `remove_port` drops the port from the dependency graph
    (without pruning other ports: explicit argument or signature default of the remover, also for sibling methods
    that drop the returned list) and both port maps; code outside GraphMapper only reads these maps.
-R5 iteration safety.  No loop iterates an internal set (or map) that its body mutates without taking a copy.
+R5 iteration safety.  No loop iterates an internal set (or map) that its body mutates without taking a copy
+   (`self.successors(n)` / `self.predecessors(n)` count as copies of the entry they read).
 
-Not decided: equivalence with a reference graph for arbitrary operation sequences (needs execution).
+Not decided: equivalence with a reference graph for arbitrary operation sequences (needs execution).  For a `replace`
+built on the public primitives (snapshot + remove_node(.., False) + add) the rule decides that no pruning removal is
+reachable; that every snapshotted edge is re-attached is not paired elementwise (R1 inlines helpers one level only).
 """
 
 from __future__ import annotations
@@ -46,6 +55,7 @@ from ._util_E import (
     coexec,
     const_of,
     deref,
+    deref_at,
     effective_arg,
     emptiness_atom,
     enclosing_loops,
@@ -228,7 +238,7 @@ def extract_ops(f, prog=None, _depth=0):
                 elif is_self_attr(t, VIEWS):
                     unknown.append(n)
     # loop context of every op
-    eloops = entry_loops(f)
+    eloops = entry_loops(f, prog)
     for o in ops:
         for lp, lview, lkey, _copied, var in eloops:
             if not lp.is_comp and var == o.key and _inside(o.node, lp):
@@ -268,12 +278,37 @@ def extract_ops(f, prog=None, _depth=0):
     return ops, unknown
 
 
-def entry_loops(f):
-    """Statement loops / comprehension generators iterating an adjacency set: (Loop, view, key text, copied?, var)."""
+def query_entry(prog, f, e):
+    """`self.successors(n)` / `self.predecessors(n)` (any one-argument method of the graph classes whose only return
+    is a copy of the adjacency entry of its parameter) -> (view, key expr at the call site): the call evaluates to a
+    fresh copy of that entry, like `set(self._successors[n])` written in place."""
+    e = deref(f, e)
+    if prog is None or f.cls is None or not (isinstance(e, ast.Call) and isinstance(e.func, ast.Attribute) and isinstance(e.func.value, ast.Name)
+                                             and e.func.value.id == "self" and len(e.args) == 1 and not e.keywords and not isinstance(e.args[0], ast.Starred)):
+        return None
+    callee = prog.resolve_method(f.cls.qualname, e.func.attr)
+    if callee is None or callee.cls is None or callee.cls.qualname not in set(graph_classes(prog)):
+        return None
+    params = [p for p in callee.params if p != "self"]
+    rets = [n for n in callee.body_nodes() if isinstance(n, ast.Return)]
+    if len(params) != 1 or len(rets) != 1 or rets[0].value is None:
+        return None
+    inner, copied = strip_copy(callee, deref_at(callee, rets[0].value, rets[0]))
+    ent = view_entry(callee, inner) if copied else None
+    if ent and ktext(callee, ent[1]) == params[0]:
+        return ent[0], e.args[0]
+    return None
+
+
+def entry_loops(f, prog=None):
+    """Statement loops / comprehension generators iterating an adjacency set (or, with `prog`, the copy of one handed
+    out by a query method of the graph classes): (Loop, view, key text, copied?, var)."""
     out = []
     for lp in loops_of(f):
         it, copied = strip_copy(f, lp.iter)
         ent = view_entry(f, it)
+        if ent is None:
+            ent, copied = query_entry(prog, f, it), True
         if ent and isinstance(lp.target, ast.Name):
             out.append((lp, ent[0], ktext(f, ent[1]), copied, lp.target.id))
     return out
@@ -458,12 +493,15 @@ def r1(ctx):
 # --------------------------------------------------------------------------- R2
 
 
-def _leaks(f, e, depth=0) -> str | None:
-    """Text of the internal object a returned expression aliases, or None when it is a fresh value."""
+def _leaks(f, e, depth=0, at=None) -> str | None:
+    """Text of the internal object a returned expression aliases, or None when it is a fresh value.  `at` = the
+    statement at which e is read (a temporary assigned on several branches is resolved per return)."""
     if depth > 6 or e is None:
         return None
     if isinstance(e, ast.Name):
         d = deref(f, e)
+        if d is e and at is not None:
+            d = deref_at(f, e, at)
         if d is e:
             # a loop variable bound to an internal set?
             for lp in loops_of(f):
@@ -563,12 +601,12 @@ def r2(ctx):
     for f in graph_methods(prog):
         for r in [n for n in f.body_nodes() if isinstance(n, ast.Return) and n.value is not None]:
             mentions = any(
-                (isinstance(x, ast.Attribute) and is_self_attr(x, VIEWS)) for x in ast.walk(deref(f, r.value))
-            ) or (isinstance(r.value, ast.Name) and _leaks(f, r.value))
+                (isinstance(x, ast.Attribute) and is_self_attr(x, VIEWS)) for x in ast.walk(deref_at(f, r.value, r))
+            ) or (isinstance(r.value, ast.Name) and _leaks(f, r.value, at=r))
             if not mentions:
                 continue
             n_query += 1
-            leak = _leaks(f, r.value)
+            leak = _leaks(f, r.value, at=r)
             ctx.ob("R2", f"{f.name} returns a fresh value, not an internal set/map", leak is None, func=f, node=r, instance=f"{f.name}:copy-out",
                    message=f"{f.name} returns `{leak}`: callers that mutate the result (or iterate it during removal) change the graph behind its back, one view only")
     for name in ("successors", "predecessors", "get_nodes"):
@@ -578,7 +616,7 @@ def r2(ctx):
         for f in [m for m in graph_methods(prog) if m.name == name]:
             used = set()
             for r in [n for n in f.body_nodes() if isinstance(n, ast.Return) and n.value is not None]:
-                for x in ast.walk(deref(f, r.value)):
+                for x in ast.walk(deref_at(f, r.value, r)):
                     if isinstance(x, ast.Attribute) and is_self_attr(x, VIEWS):
                         used.add(VIEWS[x.attr])
             ctx.ob("R2", f"{name} answers from {VIEW_ATTR[view]}", used == {view}, func=f, node=f.node, instance=f"{name}:view",
@@ -613,18 +651,24 @@ def remover_callees(prog, f, c):
     return out
 
 
-def prune_flag(prog, f, c):
+def prune_flag(prog, f, c, env=None):
     """The value `prune_dead_end` has in the removers called at c: the argument written at the call site or, when it
     is omitted, the *signature default of the callee* (the caller then relies on that default).
     -> (value, text): value True / False when it is that constant in every resolved callee, None otherwise;
-    text says where the value comes from."""
+    text says where the value comes from.  `env` = constant values of f's own parameters (f inlined at a call site
+    that passes constants: a forwarded flag then has the caller's value)."""
     vals, texts = set(), []
     for callee in remover_callees(prog, f, c):
         e, how = effective_arg(callee, c, FLAG)
         isc, v = const_of(f if how == "explicit" else None, e)
+        fwd = ""
+        if how == "explicit" and not isc and env:
+            d = deref(f, e)
+            if isinstance(d, ast.Name) and d.id in f.params and d.id in env:
+                isc, v, fwd = True, env[d.id], f" (= {env[d.id]}, the value {f.name} receives here)"
         vals.add(v if isc and isinstance(v, bool) else None)
         if how == "explicit":
-            texts.append(f"passes {FLAG}={unparse(e)}")
+            texts.append(f"passes {FLAG}={unparse(e)}{fwd}")
         elif how == "default":
             texts.append(f"omits {FLAG} and so relies on the signature default `{FLAG}={unparse(e)}` of {callee.qualname.rsplit('.', 2)[-2]}.{callee.name}")
         else:
@@ -634,11 +678,48 @@ def prune_flag(prog, f, c):
     return None, "; ".join(dict.fromkeys(texts)) or "calls no remover that takes the flag"
 
 
+def pruning_calls(prog, f, env=None, depth=2, _seen=frozenset()):
+    """Calls in f that may remove nodes other than the ones they are given: a remover (remove_nodes / remove_node of
+    the graph classes) whose `prune_dead_end` -- explicit argument, forwarded parameter or, when omitted, the callee's
+    signature default -- is not the constant False; followed through `self.helper(..)` calls into other methods of the
+    graph classes (`depth` levels, constant arguments propagated).  -> [(call in f, where the flag comes from)]"""
+    gcs = set(graph_classes(prog))
+    out = []
+    for c in f.calls():
+        if remover_callees(prog, f, c):
+            v, how = prune_flag(prog, f, c, env)
+            if v is not False:
+                out.append((c, f"`{unparse(c)}` {how}"))
+            continue
+        fn = c.func
+        if depth <= 0 or not (isinstance(fn, ast.Attribute) and isinstance(fn.value, ast.Name) and fn.value.id == "self"):
+            continue
+        for q in prog.resolve_call(f, c):
+            callee = prog.functions.get(q)
+            if callee is None or callee is f or callee.cls is None or callee.cls.qualname not in gcs or q in _seen:
+                continue
+            sub = {}
+            for p in callee.params:
+                if p == "self":
+                    continue
+                e, how = effective_arg(callee, c, p)
+                isc, v = const_of(f if how == "explicit" else None, e)
+                if how == "explicit" and not isc and env:
+                    d = deref(f, e)
+                    if isinstance(d, ast.Name) and d.id in f.params and d.id in env:
+                        isc, v = True, env[d.id]
+                if isc and isinstance(v, bool):
+                    sub[p] = v
+            for _ic, txt in pruning_calls(prog, callee, sub, depth - 1, _seen | {q}):
+                out.append((c, f"`{unparse(c)}` runs {callee.qualname.rsplit('.', 2)[-2]}.{callee.name}, where {txt}"))
+    return out
+
+
 def r3(ctx):
     prog = ctx.prog
     pushes = 0
     for f in graph_methods(prog):
-        eloops = [x for x in entry_loops(f) if not x[0].is_comp]
+        eloops = [x for x in entry_loops(f, prog) if not x[0].is_comp]
         if not eloops:
             continue
         ops, _ = extract_ops(f)
@@ -711,12 +792,11 @@ def r3(ctx):
         ctx.ob("R3", "promote_to_source removes the queued ancestors with pruning enabled", ok, func=f, node=c, instance="promote:remove_nodes",
                message=f"promote_to_source does not hand its dead-end list to remove_nodes with prune_dead_end=True (`{unparse(c)}` {how}): "
                        "only the direct parents are deleted, ancestors that no longer lead anywhere survive and are missing from the returned list")
-        st = enclosing_stmt(c)
-        returned = isinstance(st, ast.Return) and (st.value is c or deref(f, st.value) is c)
-        if not returned:
-            for r in [n for n in f.body_nodes() if isinstance(n, ast.Return) and n.value is not None]:
-                if deref(f, r.value) is c:
-                    returned = True
+        # every return executed after the call hands out the call's value -- directly or through a temporary, which is
+        # resolved at the return statement that reads it (the same name may hold `[]` on the early-exit path)
+        after = g.reach(ids_at(f, c), include_src=True)
+        late = [n for n in f.body_nodes() if isinstance(n, ast.Return) and any(i in after for i in ids_at(f, n))]
+        returned = bool(late) and all(r.value is not None and (r.value is c or deref_at(f, r.value, r) is c) for r in late)
         loop_ids = [i for lp in entry_loops(f) if not lp[0].is_comp for i in ids_at(f, lp[0].node)]
         ctx.ob("R3", "promote_to_source returns the nodes removed by remove_nodes on every path past the loop", returned and must_follow(g, loop_ids, ids_at(f, c)),
                func=f, node=c, instance="promote:returns",
@@ -744,6 +824,21 @@ def r3(ctx):
     ctx.require({"old_node", "new_node"} <= set(f.params), "C20.R3: replace(old_node, new_node) signature changed")
     _membership_guard(ctx, f, "old_node", absent_is_bad=True, label="replace ignores an absent old_node before touching the graph")
     _membership_guard(ctx, f, "new_node", absent_is_bad=False, label="replace refuses an existing new_node before touching the graph", must_raise=True)
+    # replace only renames: whatever removal it performs (itself or through the public primitives / helper methods it is
+    # built on) must not prune -- dead-end pruning deletes the predecessors of old_node whose only successor it was,
+    # and their exclusive ancestors, i.e. nodes and edges replace promises to keep
+    for rf in prog.overrides(GRAPH, "replace"):
+        owner = rf.qualname.rsplit(".", 2)[-2]
+        bad = pruning_calls(prog, rf)
+        what = f"{owner}.replace removes no node but old_node: every removal it performs (directly or through methods of the graph classes) runs with {FLAG}=False"
+        if not bad:
+            ctx.ob("R3", what, True, func=rf, node=rf.node, instance=f"{owner}.replace:noprune")
+        for c, how in bad:
+            ctx.ob("R3", what, False, func=rf, node=c, instance=f"{owner}.replace:noprune:{' '.join(unparse(c).split())}",
+                   message=f"{owner}.replace: {how}: the dead-end pruning deletes the predecessors of old_node whose only successor it was, and their "
+                           "ancestors, together with their edges -- replace must keep every predecessor and successor edge of the old node "
+                           f"(pass {FLAG}=False, as GraphMapper.remove_port does)",
+                   witness=[f"removal reached from replace: {how}"])
 
 
 def _membership_guard(ctx, f, param, absent_is_bad, label, must_raise=False):
@@ -1026,6 +1121,12 @@ def r5(ctx):
             it, copied = strip_copy(f, lp.iter)
             ent = view_entry(f, it)
             whole = None
+            if ent is None and query_entry(prog, f, it):
+                # `for x in self.successors(n)`: the query method hands out a fresh copy of the entry
+                n += 1
+                ctx.ob("R5", f"{f.name}: loop over the copy of an adjacency set returned by {unparse(deref(f, it).func)}", True, func=f, node=lp.node,
+                       instance=f"{f.name}:iter:{unparse(deref(f, it))}", trivial=True)
+                continue
             if ent is None:
                 base = it.func.value if isinstance(it, ast.Call) and isinstance(it.func, ast.Attribute) and it.func.attr in ("keys", "items", "values") else it
                 whole = view_map(f, base)
@@ -1043,11 +1144,16 @@ def r5(ctx):
             ctx.ob("R5", f"{f.name}: the body of `for ... in {unparse(lp.iter)}` does not change the collection it iterates", not bad, func=f, node=lp.node,
                    instance=f"{f.name}:iter:{unparse(it)}",
                    message=f"`{unparse(bad[0].node) if bad else ''}` changes `{unparse(it)}` while the loop iterates it without a copy (RuntimeError: Set changed size during iteration / skipped elements)")
-    ctx.require(n >= 4, f"C20.R5: only {n} loops over adjacency sets found")
+    # vacuity guard: the anchors of this rule are the loops of remove_nodes / promote_to_source; how many loops the other
+    # methods need is not part of the clause (FLOORS counts the instances when nothing is reported)
+    ctx.require(n >= 1, "C20.R5: no loop over an adjacency set found in the graph classes")
 
 
 RULES = [("R1", r1), ("R2", r2), ("R3", r3), ("R4", r4), ("R5", r5)]
-FLOORS = {"R1": 20, "R2": 16, "R3": 8, "R4": 8, "R5": 4}
+# R1: the 16 instances of the primitives (__init__ 1, _add_node 4, add 2, remove_nodes 7, promote_to_source 2); the 10 of
+# `replace` are not part of the floor: a replace that is built on the primitives (remove_node(.., False) + add) has no
+# elementwise update of its own left to pair, and must be decided (R3 replace clause), not refused
+FLOORS = {"R1": 16, "R2": 16, "R3": 8, "R4": 8, "R5": 4}
 
 G = GRAPH
 _RN_TAIL = (
@@ -1074,6 +1180,37 @@ _RP_L1_FULL = (
     "        self._predecessors[succ].remove(old_node)\n        self._predecessors[succ].add(new_node)\n"
 )
 _RP_L2_HEAD = "    for pred in self._predecessors[old_node]:\n"
+# the whole rewiring part of replace, and replace rebuilt on the public primitives (snapshot, remove old_node, re-attach)
+_RP_BODY = _RP_HEAD + (
+    "        self._successors[pred].remove(old_node)\n        self._successors[pred].add(new_node)\n"
+    "    del self._successors[old_node]\n    del self._predecessors[old_node]"
+)
+
+
+def _rp_rebuilt(removal, snap_s="self.successors(old_node)", snap_p="self.predecessors(old_node)"):
+    return (
+        f"self._add_node(new_node)\n    successors = {snap_s}\n    predecessors = {snap_p}\n    {removal}\n"
+        "    for succ in successors:\n        self.add(new_node, succ)\n    for pred in predecessors:\n        self.add(pred, new_node)"
+    )
+
+
+
+
+def _cls(text):
+    """Method-level text re-indented for a replacement in the text of the class."""
+    return text.replace("\n", "\n    ")
+
+
+_PS_BODY = (
+    "    if node not in self._successors.keys():\n        return []\n    to_delete = []\n"
+    "    for pred in list(self._predecessors[node]):\n        self._successors[pred].discard(node)\n        self._predecessors[node].discard(pred)\n"
+    "        if not self._successors[pred]:\n            to_delete.append(pred)\n    return self.remove_nodes(to_delete)"
+)
+_PS_BODY_TEMPRET = (
+    "    if node not in self._successors.keys():\n        _sf_ret = []\n        return _sf_ret\n    to_delete = []\n"
+    "    for pred in list(self._predecessors[node]):\n        self._successors[pred].discard(node)\n        self._predecessors[node].discard(pred)\n"
+    "        if not self._successors[pred]:\n            to_delete.append(pred)\n    _sf_ret = self.remove_nodes(to_delete)\n    return _sf_ret"
+)
 VARIANTS = [
     # ---- R1
     V("replace: both adjacency sets copied up front (self-loop leaves a stale predecessor snapshot)", FILE, f"{G}.replace", _RP_HEAD,
@@ -1151,7 +1288,31 @@ VARIANTS = [
     V("remove_nodes: default dropped from the signature promote_to_source relies on", FILE, f"{G}.remove_nodes", "prune_dead_end: bool=True", "prune_dead_end: bool", "R3"),
     V("promote: pruning switched off positionally through a temporary", FILE, f"{DAG}.promote_to_source", "return self.remove_nodes(to_delete)",
       "keep_ancestors = False\n    return self.remove_nodes(to_delete, keep_ancestors)", "R3"),
+    # ---- replace only renames: no pruning removal (R3)
+    V("replace rebuilt on remove_node()+add(): the default dead-end pruning eats the ancestors of the replaced node", FILE, f"{G}.replace", _RP_BODY,
+      _rp_rebuilt("self.remove_node(old_node)"), "R3"),
+    V("replace rebuilt on remove_nodes([old]) relying on the pruning default", FILE, f"{G}.replace", _RP_BODY, _rp_rebuilt("self.remove_nodes([old_node])"), "R3"),
+    V("replace rebuilt on remove_node() with pruning switched on through a temporary", FILE, f"{G}.replace", _RP_BODY,
+      _rp_rebuilt("clean = True\n    self.remove_node(old_node, clean)"), "R3"),
+    V("replace: the old node is dropped by a helper method that prunes by default", FILE, G, _cls(_RP_BODY),
+      _cls(_rp_rebuilt("self._drop(old_node)")) + "\n\n    def _drop(self, n):\n        if n in self._successors:\n            self.remove_node(n)", "R3"),
+    V("replace: helper forwards a pruning flag that replace sets", FILE, G, _cls(_RP_BODY),
+      _cls(_rp_rebuilt("self._drop(old_node, True)")) + "\n\n    def _drop(self, n, prune_dead_end=False):\n        self.remove_nodes([n], prune_dead_end)", "R3"),
+    V("promote: temporary re-assigned before it is returned", FILE, f"{DAG}.promote_to_source", "return self.remove_nodes(to_delete)",
+      "_sf_ret = self.remove_nodes(to_delete)\n    _sf_ret = to_delete\n    return _sf_ret", "R3"),
+    V("promote: early-exit value returned on the late path (one temporary, two assignments)", FILE, f"{DAG}.promote_to_source", _PS_BODY,
+      _PS_BODY_TEMPRET.replace("_sf_ret = self.remove_nodes(to_delete)\n    return _sf_ret", "self.remove_nodes(to_delete)\n    _sf_ret = []\n    return _sf_ret"), "R3"),
+    V("successors leaks the internal set through a temporary assigned on two branches", FILE, f"{G}.successors", "return set(self._successors[node])",
+      "if node in self._successors:\n        res = self._successors[node]\n        return res\n    res = set()\n    return res", "R2"),
     # ---- benign
+    V("benign: every return through one temporary (`_sf_ret = []; return _sf_ret` ... `_sf_ret = self.remove_nodes(..); return _sf_ret`)", FILE,
+      f"{DAG}.promote_to_source", _PS_BODY, _PS_BODY_TEMPRET, None),
+    V("benign: a temporary that is overwritten with the result of remove_nodes before it is returned", FILE, f"{DAG}.promote_to_source",
+      "return self.remove_nodes(to_delete)", "removed = []\n    removed = self.remove_nodes(to_delete)\n    return removed", None),
+    V("benign: replace rebuilt on remove_node(prune_dead_end=False)+add() over snapshots taken by the query methods", FILE, f"{G}.replace", _RP_BODY,
+      _rp_rebuilt("self.remove_node(old_node, prune_dead_end=False)"), None),
+    V("benign: replace rebuilt on remove_nodes([old], False) through a helper that forwards the flag", FILE, G, _cls(_RP_BODY),
+      _cls(_rp_rebuilt("self._drop(old_node, False)")) + "\n\n    def _drop(self, n, prune_dead_end=True):\n        self.remove_nodes([n], prune_dead_end)", None),
     V("benign: pruning flag made keyword-only (default still resolved from the signature)", FILE, f"{G}.remove_nodes", "nodes: MutableSequence[T], prune_dead_end: bool=True",
       "nodes: MutableSequence[T], *, prune_dead_end: bool=True", None),
     V("benign: promote passes the pruning flag explicitly", FILE, f"{DAG}.promote_to_source", "return self.remove_nodes(to_delete)", "return self.remove_nodes(to_delete, True)", None),
